@@ -1,6 +1,6 @@
 import PPModel.Base.Sexp
 import PPModel.Mod.TrimArity
-namespace PP.Driver
+namespace PP.Driver.TrimArityD
 open PP PP.Sexp PP.TrimArity
 
 /-!
@@ -96,4 +96,8 @@ def trimArityHandle : List Sexp → Option Sexp
       pure (.list items)
   | _ => none
 
+end PP.Driver.TrimArityD
+
+namespace PP.Driver
+def trimArityHandle := TrimArityD.trimArityHandle
 end PP.Driver
